@@ -109,20 +109,42 @@ class World:
         self.tgt_freq = np.array([0.06, 0.12, 0.22, 0.33])
         self.tgt_dir = [0.0, 60.0, 120.0, 180.0, 240.0, 300.0]
         self.tmp = tempfile.mkdtemp(prefix="c17-", dir=os.path.join(BUILD, "traces"))
+        # in-memory datasets in the native layout of the model readers (what xr.open_dataset would hand to from_<model> / read_dataset)
+        from harness.props import c12
+        vec = {"F": [2, 3, 5, 7], "D": [0, 1440, 2880, 4320], "E": [[1, 2, 0, 3], [4, 0, 5, 1], [0, 6, 2, 2], [1, 1, 3, 0]]}
+        self.native = {}
+        for conv in ("ww3", "ncswan", "wwm"):
+            nds = c12.native_dataset(dict(vec, conv=conv), rng, True, conv != "wwm" and variant["dset_conv"] == 360)[0]
+            nds.attrs = {"source": conv}
+            for k in nds.data_vars:
+                nds[k].attrs = {"native": k}
+            if variant["dask"]:
+                nds = nds.chunk({list(nds.sizes)[0]: 1})
+            self.native[conv] = nds
+        era = xr.Dataset({"d2fd": (("time", "frequency", "direction", "latitude", "longitude"), np.log10(np.arange(1.0, 1 + 2 * 30 * 24 * 2 * 2).reshape(2, 30, 24, 2, 2)))},
+                         coords={"time": np.datetime64("2020-01-01") + np.arange(2) * np.timedelta64(1, "h"), "frequency": np.arange(1, 31), "direction": np.arange(1, 25),
+                                 "latitude": [10.0, 9.5], "longitude": [100.0, 100.5]})
+        era["d2fd"].values[0, 0, 0, 0, 0] = np.nan
+        self.native["era5"] = era
 
     def objects(self):
         return [self.ds, self.buffer, self.qlons_np, self.qlats_np, self.qlons_list, self.qlats_list, self.qlons_da, self.qlats_da,
-                self.dset_lons, self.dset_lats, self.bboxes, self.freq_kwargs, self.dir_kwargs, self.stats_dict, self.tgt_freq, self.tgt_dir]
+                self.dset_lons, self.dset_lats, self.bboxes, self.freq_kwargs, self.dir_kwargs, self.stats_dict, self.tgt_freq, self.tgt_dir,
+                self.native["ww3"], self.native["ncswan"], self.native["wwm"], self.native["era5"]]
 
     NAMES = ["dataset", "caller buffer", "query lons (ndarray)", "query lats (ndarray)", "query lons (list)", "query lats (list)",
              "query lons (DataArray)", "query lats (DataArray)", "dset_lons", "dset_lats", "bboxes list", "freq_kwargs", "dir_kwargs",
-             "stats dict", "target freq", "target dir list"]
+             "stats dict", "target freq", "target dir list", "native WW3 dataset", "native SWAN-nc dataset", "native WWM dataset", "native ERA5 dataset"]
 
 
 def ops_table():
     from wavespectra.construct import construct_partition
     from wavespectra.construct.frequency import jonswap
     import wavespectra.input.ww3 as iww3
+    import wavespectra.input.ncswan as incswan
+    import wavespectra.input.wwm as iwwm
+    import wavespectra.input.era5 as iera5
+    from wavespectra import read_dataset
     w = lambda W: (W.ds.wspd, W.ds.wdir, W.ds.dpt)  # noqa
     t = {
         "hs": lambda W: W.ds.spec.hs(),
@@ -159,8 +181,12 @@ def ops_table():
         "sel_exact_miss": lambda W: W.ds.spec.sel(W.qlons_np, W.qlats_np, method=None),
         "construct": lambda W: construct_partition("jonswap", "cartwright", W.freq_kwargs, W.dir_kwargs),
         "jonswap": lambda W: jonswap(freq=W.freq_kwargs["freq"], fp=0.1, hs=2.0),
-        "from_ww3_like": lambda W: iww3.from_ww3(W.ds.rename({"freq": "frequency", "dir": "direction", "site": "station", "lon": "longitude",
-                                                              "lat": "latitude"}).isel(time=[0, 1])) if False else None,
+        "from_ww3": lambda W: iww3.from_ww3(W.native["ww3"]),
+        "from_ncswan": lambda W: incswan.from_ncswan(W.native["ncswan"]),
+        "from_wwm": lambda W: iwwm.from_wwm(W.native["wwm"]),
+        "from_era5": lambda W: iera5.from_era5(W.native["era5"]),
+        "read_dataset_ww3": lambda W: read_dataset(W.native["ww3"]),
+        "read_dataset_ncswan": lambda W: read_dataset(W.native["ncswan"]),
         "to_swan": lambda W: W.ds.spec.to_swan(os.path.join(W.tmp, "a.spec")),
         "to_swan_ntime": lambda W: W.ds.spec.to_swan(os.path.join(W.tmp, "b.spec"), ntime=2),
         "to_json": lambda W: W.ds.spec.to_json(os.path.join(W.tmp, "a.json")),
@@ -170,7 +196,6 @@ def ops_table():
         "to_netcdf3": lambda W: W.ds.spec.to_netcdf(os.path.join(W.tmp, "a.nc"), ncformat="NETCDF3_64BIT", compress=False, packed=False),
         "to_ww3": lambda W: W.ds.spec.to_ww3(os.path.join(W.tmp, "w.nc"), ncformat="NETCDF3_64BIT", compress=False),
     }
-    del t["from_ww3_like"]
     return t
 
 
@@ -185,7 +210,7 @@ def run(ctx):
     names = sorted(table)
     maxlen = 2
     q = "{" + ",".join('"%s"' % n for n in names) + "}"
-    cfg = ws.write_cfg("frame_%d.cfg" % maxlen, "SPECIFICATION Spec\nCONSTANTS OPS = %s\n NOBJ = 16\n MAXLEN = %d\nPROPERTY ArgsImmutable\nINVARIANT EmitInv\n" % (q, maxlen))
+    cfg = ws.write_cfg("frame_%d.cfg" % maxlen, "SPECIFICATION Spec\nCONSTANTS OPS = %s\n NOBJ = 20\n MAXLEN = %d\nPROPERTY ArgsImmutable\nINVARIANT EmitInv\n" % (q, maxlen))
     r = ctx.tlc("Frame", cfg, workers=4, label="programs of %d calls over %d operations" % (maxlen, len(names)))
     for inv in r.violated:
         if inv != "EmitInv":
